@@ -75,9 +75,9 @@ def _analyses():
     thread = lambda c, w: kt.global_effects(c, w, thread=True)
     return {
         "C01": (
-            [a3.vjp, a3.helpers, a3.einsum_sublist_target, vjp_reduce, vjp_batch, vjp_rank, km.squeeze_axes, a16_perm.permutations_rule, a16_perm.norm_rolls, a17_labels.contraction_adjoints, vjp_axis, vjp_none, vjp_order, a2.catchall, a2.forwarded_defaults, vjp_drop, vjp_ignored, a2.variadic, a2.argnums_rules, a2.positional_selection, a1.arity, ka.option_domains, a5_factor.agree, vjp_alias, a5_linear.closures_linear, ka.arraybox_table, kc.inplace_sites],
+            [a3.vjp, a3.helpers, a3.einsum_sublist_target, vjp_reduce, vjp_batch, vjp_rank, a3.restored_rank, km.squeeze_axes, a16_perm.permutations_rule, a16_perm.norm_rolls, a17_labels.contraction_adjoints, vjp_axis, vjp_none, vjp_order, a2.catchall, a2.forwarded_defaults, vjp_drop, vjp_ignored, a2.variadic, a2.argnums_rules, a2.positional_selection, a1.arity, ka.option_domains, ka.option_dispatch_distinct, a5_factor.agree, vjp_alias, a5_linear.closures_linear, a5_linear.linear_args_unread, ka.arraybox_table, kc.inplace_sites],
             "Reverse-mode exactness is numerical; decided here are the configuration-dependent plumbing clauses every exact rule needs: "
-            "broadcast discipline of VJPs (A3.vjp), batch members of stacked-matrix functions kept apart (A3.batch), shapes paired from the right or under an established equal rank (A3.rank), negative-axis hazards (A7), axis=None of the flattening functions never replaced by an explicit axis (A7.none), layout-relative `order` values never forwarded to the cotangent (A7.order), keyword/positional binding behind catch-alls (A2.catchall), equal names and defaults where (*args, **kwargs) are forwarded to another NumPy function (A2.fwd), no option handed on incompletely (A2.drop) or accepted and never read (A2.ignored), "
+            "broadcast discipline of VJPs (A3.vjp), batch members of stacked-matrix functions kept apart (A3.batch), shapes paired from the right or under an established equal rank (A3.rank), the cotangent of rank-changing functions (cumsum of a 0-d operand, axis=None of cumsum / repeat / sort / partition) reshaped to the operand's shape (A3.restore), negative-axis hazards (A7), axis=None of the flattening functions never replaced by an explicit axis (A7.none), layout-relative `order` values never forwarded to the cotangent (A7.order), keyword/positional binding behind catch-alls (A2.catchall), equal names and defaults where (*args, **kwargs) are forwarded to another NumPy function (A2.fwd), no option handed on incompletely (A2.drop) or accepted and never read (A2.ignored), "
             "variadic offsets (A2.variadic), whole-argnums rules map element-wise (A2.argnums), slots of variadic primitives addressed by position, never by operand identity (A2.position), arity (A1.arity), closed option domains (A6.enum), VJP/JVP factor agreement of elementwise rules (A5), equal rules for two names of one NumPy function (A5.alias), linearity of every rule closure in its cotangent (A5.lin: a VJP is a linear map; helper primitives it calls must be known to be linear in that operand) "
             "and the operator/method call forms (A14); no rule writes in place to its cotangent, its arguments or the answer (A9.inplace: every other rule that reads the same array would see the changed values). Each is a necessary condition: breaking one makes some call configuration silently wrong.",
         ),
@@ -88,18 +88,18 @@ def _analyses():
             "(value, tangent) order and zero tangents of the right space (A13.zero/A2.tuple), VJP/JVP factor agreement of elementwise rules (A5), equal rules for two names of one NumPy function (A5.alias), linearity of every rule in its tangent (A5.lin); no JVP rule writes in place to the tangent, the arguments or the answer it is given (A9.inplace: the tangent stored on the parent node is read again by every later consumer).",
         ),
         "C03": (
-            [kc.backward_pass, km.toposort, kc.dispatch, kt.wrapper, kc.raise_discipline, ka.arraybox_table, kc.ownership, kc.owned_flags, km.container_vspaces, kc.inplace_sites, a2.argnums_rules],
+            [kc.backward_pass, km.toposort, kc.dispatch, kt.wrapper, kc.raise_discipline, ka.arraybox_table, kc.ownership, kc.owned_flags, km.container_vspaces, kc.inplace_sites, a2.argnums_rules, a5_linear.linear_args_unread],
             "Chain rule over arbitrary graphs: path property of one backward_pass iteration (node.vjp exactly once, one add_outgrads per parent edge keyed by that parent, "
-            "accumulating into the current entry), the accumulation itself (add_outgrads ownership typestate A9.proto; container spaces delegate _add/_mut_add to the same-named child operation and keep the result, A14.vspace), alignment of parents/argnums/rules in the wrapper and in all dispatch branches (A13.align), node constructor slots (A2.slot), whole-argnums rules pair each (co)tangent with its own argnum when constants are mixed in between traced arguments (A2.argnums); a cotangent fans out to several rules unchanged because no rule writes to borrowed memory (A9.inplace).",
+            "accumulating into the current entry), the accumulation itself (add_outgrads ownership typestate A9.proto; container spaces delegate _add/_mut_add to the same-named child operation and keep the result, A14.vspace), alignment of parents/argnums/rules in the wrapper and in all dispatch branches (A13.align), node constructor slots (A2.slot), whole-argnums rules pair each (co)tangent with its own argnum when constants are mixed in between traced arguments (A2.argnums); a cotangent fans out to several rules unchanged because no rule writes to borrowed memory (A9.inplace); the reverse rules of the VSpace arithmetic that higher-order derivatives run through (add, inner_prod, scalar_mul, ...) and of every other function declared linear in an argument never read that argument's value (A5.selfread: a bilinear rule attached to the wrong slot).",
         ),
         "C04": (
-            [a5_factor.agree, a5_linear.closures_linear, a1.lin, a3.vjp, a3.jvp, a17_labels.contraction_adjoints, a2.dropped_options, a2.forwarded_defaults, a5_factor.mask_agree],
+            [a5_factor.agree, a5_linear.closures_linear, a1.lin, a3.vjp, a3.jvp, a17_labels.contraction_adjoints, a2.dropped_options, a2.forwarded_defaults, a5_factor.mask_agree, a5_linear.linear_args_unread],
             "Adjointness: equal normal forms of the VJP and JVP factors of every elementwise primitive with both rules (a diagonal operator is self-adjoint, so equality of the "
-            "factors IS adjointness for all inputs); linearity in g of every rule closure (two-point domain over linear_in facts); 'same' entries only on linear pairs; the two rules of an argument select on the primal values with the same predicates on the same operands (A5.mask); both rules of a primitive hand its options on to NumPy completely and to functions with the same defaults (A2.drop, A2.fwd: a rule that silently runs with another option value than its twin is not its adjoint).",
+            "factors IS adjointness for all inputs); linearity in g of every rule closure (two-point domain over linear_in facts); 'same' entries only on linear pairs; the two rules of an argument select on the primal values with the same predicates on the same operands (A5.mask); both rules of a primitive hand its options on to NumPy completely and to functions with the same defaults (A2.drop, A2.fwd: a rule that silently runs with another option value than its twin is not its adjoint); the VJP of an argument declared linear in the JVP table reads only that argument's metadata (A5.selfread).",
         ),
         "C05": (
-            [a3.vjp, a3.helpers, a3.einsum_sublist_target, vjp_reduce, vjp_rank, km.squeeze_axes, a4.match, kc.zero_paths, a1.types, a2.layout, a4_dtype.dtype_comparisons, a4_dtype.cotangent_template, vjp_axis],
-            "A gradient lives in its argument's space: shape support under broadcasting (A3.vjp), shapes of two arrays paired entry by entry only under an established equal rank (A3.rank), no axis arithmetic that changes meaning for a negative axis (A7: such a slip cuts the cotangent along the wrong axis), real/complex kind for every kind assignment of the arguments (A4.match, exhaustive 2^n), "
+            [a3.vjp, a3.helpers, a3.einsum_sublist_target, vjp_reduce, vjp_rank, a3.restored_rank, km.squeeze_axes, a4.match, kc.zero_paths, a1.types, a2.layout, a4_dtype.dtype_comparisons, a4_dtype.cotangent_template, vjp_axis],
+            "A gradient lives in its argument's space: shape support under broadcasting (A3.vjp), shapes of two arrays paired entry by entry only under an established equal rank (A3.rank), the result reshaped to the operand's shape on every path where the function's result does not keep the operand's rank (A3.restore), no axis arithmetic that changes meaning for a negative axis (A7: such a slip cuts the cotangent along the wrong axis), real/complex kind for every kind assignment of the arguments (A4.match, exhaustive 2^n), "
             "kind decisions never made by dtype == <Python scalar type> (A4.dtypecmp), the shape/dtype template of a rebuilt cotangent taken from the differentiated argument (A4.template), zeros of the argument's / output's space on independent paths (A13.zero), one Box and one VSpace per differentiable type (A1.types), container layout (A2.layout).",
         ),
         "C06": (
@@ -119,9 +119,9 @@ def _analyses():
             "list resets on strictly greater / appends on equal (A12.top), dependence by id equality, re-entry of the wrapper for lower levels, answer boxed with the arguments' trace (A13.unbox); the node constructors hand the answer and the arguments to the rule exactly as the wrapper passed them - still boxed for every enclosing trace (A2.slot: a rule evaluated on unboxed values detaches the inner derivative from all outer levels); every ArrayBox operator hands BOTH operands to the NumPy function the data model names, whatever their values (A14: a shortcut chosen by the value of an operand that is traced at another level drops that level's dependence).",
         ),
         "C09": (
-            [a4.vspace, a4.match, a4.match_jvp, a4.modulus, a5_factor.agree, ka.operators, a4_dtype.dtype_comparisons, a4_parity.conj_parity, a4_parity.holomorphic_factors],
+            [a4.vspace, a4.match, a4.match_jvp, a4.modulus, a5_factor.agree, ka.operators, a4_dtype.dtype_comparisons, a4_parity.conj_parity, a4_parity.holomorphic_factors, ka.option_dispatch_distinct],
             "Complex convention: ComplexArrayVSpace overrides (conjugating covector, real inner product, size 2n, two basis vectors per entry), kind plumbing of VJPs/JVPs for every "
-            "real/complex assignment (A4), conjugation placement in modulus-family rules (A4.modulus), conjugation parity of every rule in its (co)tangent (A4.parity: complex-linear in g except for conj itself), no |.| / Re / Im / arg / conj of an argument inside the rule of a holomorphic function (A4.holo), no real/complex decision by comparing a dtype with the Python type `complex` (A4.dtypecmp: true for complex128 only), VJP/JVP factor agreement (holomorphic ufuncs: no conjugate in either table), holomorphic_grad = grad(real o f).",
+            "real/complex assignment (A4), conjugation placement in modulus-family rules (A4.modulus), conjugation parity of every rule in its (co)tangent (A4.parity: complex-linear in g except for conj itself), no |.| / Re / Im / arg / conj of an argument inside the rule of a holomorphic function (A4.holo), no real/complex decision by comparing a dtype with the Python type `complex` (A4.dtypecmp: true for complex128 only), VJP/JVP factor agreement (holomorphic ufuncs: no conjugate in either table), holomorphic_grad = grad(real o f); the real-FFT rules scale differently for every normalisation mode NumPy distinguishes (A6.distinct: no two of backward / ortho / forward select the same code).",
         ),
         "C10": (
             [kc.ownership, kc.owned_flags, kc.purity, kc.inplace_sites, kc.closure_reuse, kc.backward_pass, km.container_vspaces],
@@ -160,8 +160,8 @@ def _analyses():
             "primal/aux untouched, jacobian = output shape + input shape over the output basis, deriv element [1], holomorphic_grad, hessian, make_hvp, checkpoint, grad_named.",
         ),
         "C17": (
-            [kc.dispatch, kc.raise_discipline, kc.zero_paths, kt.wrapper, ka.operators, a2.argnums_rules, kc.programmatic_registrations],
-            "Extension contract: the three defvjp branches are specialisations of one mapping (A13.align), missing rules raise (A6.raise), None -> zeros of the right argument (A13.zero), "
+            [kc.dispatch, kc.raise_discipline, kc.notrace_callers, kc.zero_paths, kt.wrapper, ka.operators, a2.argnums_rules, kc.programmatic_registrations],
+            "Extension contract: the three defvjp branches are specialisations of one mapping (A13.align), missing rules raise (A6.raise) and no kernel function can switch the lookup off by declaring a primitive non-differentiable at run time (A6.notrace), None -> zeros of the right argument (A13.zero), "
             "registration slots and wrapper hand-over (A2.slot), whole-argnums rules map element-wise (A2.argnums), argnums= honoured (also by the adapters that register rules themselves: makers and argnums= of equal length by construction), 'same'/def_linear substitute at argnum, checkpoint wiring (A15).",
         ),
         "C18": (
